@@ -47,13 +47,13 @@ def ep_record(ep):
     return dict(kind="?" + type(ep).__name__, host="", port=0, path="")
 
 
-def choose(existing, requested, path, twice=False, overlap=False):
+def choose(existing, requested, path, twice=False, overlap=False, pending=False):
     """existing: list of SOCKSPort lines Tor reports ([] with default='9050' means 'unset, default in force')"""
     lines = list(existing["lines"])
     proto = TorControlProtocol()
     tr = proto_helpers.StringTransport()
     sim = simtor.SimTor(proto, tr)
-    sim.info.update({"config/names": ["SocksPort Dependent", "SocksPortLines Dependent", "__SocksPort Dependent"],
+    sim.info.update({"config/names": ["SocksPort Dependent", "SocksPortLines Dependent", "__SocksPort Dependent", "ContactInfo String"],
                      "config/defaults": ["SocksPort 9050"] if existing.get("default") else [],
                      "onions/current": "", "onions/detached": ""})
     sim.conf["socksport"] = lines if lines else None
@@ -116,6 +116,9 @@ def choose(existing, requested, path, twice=False, overlap=False):
             cd = TorConfig.from_protocol(proto)
             sim.pump()
             config = cd.result
+            if pending:
+                # the application has edited an unrelated option and not saved it (yet)
+                config.ContactInfo = "someone@example.com"
             d = config.create_socks_endpoint(reactor, requested)
             if twice:
                 # the application asks for the same port again later (it is there by now, whatever it took the first time)
@@ -135,7 +138,7 @@ def choose(existing, requested, path, twice=False, overlap=False):
         err = True          # (the two requests are the same: so are their answers)
     newport = reactor.given[0][0] if reactor.given else 0
     eff = lines if lines else ([existing["default"]] if existing.get("default") else [])
-    v = dict(part="a", path=path, twice=bool(twice), overlap=bool(overlap), reqfirst=(requested.split()[0] if requested else ""), lookupfails=bool(existing.get("lookupfails")), existing=[entry(l) for l in eff], requested=requested or "",
+    v = dict(part="a", path=path, twice=bool(twice), overlap=bool(overlap), pending=bool(pending), reqfirst=(requested.split()[0] if requested else ""), lookupfails=bool(existing.get("lookupfails")), existing=[entry(l) for l in eff], requested=requested or "",
              reqep=ep_record_from_text(requested) if requested else dict(kind="", host="", port=0, path=""),
              obs=dict(setconf=sets[0] if sets else [], nset=len(sets), ep=ep_record(ep) if ep is not None else dict(kind="none", host="", port=0, path=""),
                       newport=newport, newtext=str(newport), err=err))
